@@ -33,6 +33,7 @@ fn main() {
         "budget-replay" => budget::replay(&args),
         "cache-replay" | "cache-stress" | "cache-probe" => cache::run(argv[1].as_str(), &args),
         "plock-replay" => plock::replay(&args),
+        "plock-stress" => plock::stress(&args),
         "freelist-replay" => freelist::replay(&args),
         "gc-replay" => gcommit::replay(&args),
         "sql-run" => sqlrun::run(&args),
